@@ -1,7 +1,9 @@
 /-
 C09 — read → convert → write yields a valid target file with the source's timeline.
 
-FULL STATEMENT (the property; evaluated on every generated case by the harness through `c09.abs` / `c09.close`, NOT
+FULL STATEMENT (the property; evaluated on every generated case by the harness through `c09.abs` / `c09.close`; proved as
+one theorem for the pairs osu → Quaver and Quaver → osu: `osu_to_qua_end_to_end`, `qua_to_osu_end_to_end` at the end of this
+file; for the other 14 pairs NOT
 proved as one theorem):  for every source file `t` of format A inside the domain of A's reader property, every legal
 target B and key count B supports,
     `CloseTo eps (res B) (gridExact a) shift a (abs_B (denote_B (write_B (convert_AB (read_A t)))))`   with `a = abs_A (denote_A t)`,
@@ -35,6 +37,10 @@ the parts' theorems; they are stated over the parts' own model types and are not
 -/
 import Reamber.Lemmas.Pipeline
 import Reamber.Lemmas.PipelineConv
+import Reamber.Lemmas.PipelineOsuQua
+import Reamber.Lemmas.PipelineQuaOsu
+import Reamber.Props.C01
+import Reamber.Lemmas.OsuDialect
 import Reamber.Generated.SMTables
 import Reamber.Generated.PipelineTables
 import Reamber.Generated.Converters
@@ -287,5 +293,170 @@ theorem convert_write_qua_objects_partial : ∀ c ∈ Generated.converters,
     exact this
   · have := paired_of_perm_left _ _ _ _ (hrep.2 ▸ hl) hobj.2
     exact this
+
+/-! ## one pair end to end: osu → Quaver, file to file -/
+
+def osuToQua : Convert.Conv := Convert.conv! "OsuToQua.convert"
+
+/-- the generated entry of `OsuToQua.convert`: in the table, statically well formed, no shift parameter, one map in /
+one map out -/
+theorem osuToQua_entry : osuToQua ∈ Generated.converters ∧ osuToQua.name = "OsuToQua.convert" ∧
+    Convert.staticOk Convert.tables osuToQua = true ∧ osuToQua.shiftParam = none ∧ osuToQua.shape = .single := by
+  decide +kernel
+
+theorem zipped_refl {α} (R : α → α → Prop) (hR : ∀ a, R a a) : ∀ l : List α, Zipped R l l
+  | [] => Zipped.nil
+  | a :: t => Zipped.cons (hR a) (zipped_refl R hR t)
+
+theorem closeBpm_ms_refl (exact : Bool) (src : AChart) (a : ABpm) : closeBpm 0 .ms exact src a a = true := by
+  have hz : ∀ x : Rat, slack 0 x x = 0 := by
+    intro x; unfold slack; rw [Rat.zero_mul, Rat.add_zero]
+  have h0 : ∀ x : Rat, rabs (x - x) = 0 := by
+    intro x; unfold rabs; rw [Rat.sub_self]; simp
+  simp only [closeBpm, closeTime, eqUpTo, Bool.and_eq_true, decide_eq_true_eq, hz, h0]
+  constructor
+  · decide +kernel
+  · exact Rat.le_refl
+
+/-- every tempo point of the chart sits on a whole millisecond (so writing whole milliseconds does not move it) -/
+def TempoWholeMs (a : AChart) : Prop := ∀ b ∈ a.bpms, ((Qua.truncI b.1 : Int) : Rat) = b.1
+
+/-- non-vacuity of the converter hypothesis: on the frames of a small osu chart (two tempo points on whole
+milliseconds, a scroll velocity) the converter model succeeds, and the chart it returns holds the chart's tempo rows -/
+example :
+    let c : Osu.Chart := { bpms := [⟨0, 120, 4, 0, 0, 0, false⟩, ⟨2000, 150, 4, 0, 0, 0, false⟩], svs := [⟨500, 2, 0, 0, 0, false⟩] }
+    (match Convert.convert Convert.tables osuToQua ⟨[], [embOsu c]⟩ 0 with
+     | .ok out => out.charts.map (fun t => (ofTChart t).bpms) == [[(0, 120), (2000, 150)]]
+     | .error _ => false) = true ∧
+    (ofOsu c).bpms.all (fun b => decide (((Qua.truncI b.1 : Int) : Rat) = b.1)) = true := by decide +kernel
+
+/-- **osu → Quaver, end to end** (file text to written document; reader C01, converter C08, writer C06 chained):
+let `lines` be an osu text of the dialect (a well-formed skeleton) that the by-the-book denotation reads as the chart
+`c0` with a key count ≥ 1.  Then
+1. the reader as written returns exactly `c0` (C01 `read_eq_denote`);
+2. whenever the converter model's `OsuToQua.convert` succeeds on the list frames of `c0` (`embOsu c0`: the key columns,
+   fresh row labels), it returns one chart `t`, and
+3. whenever the Quaver writer accepts the chart held by `t`'s frames (`quaOfT t info svs`, any well-formed metadata
+   record `info`, any scroll velocities), the written document has a by-the-book denotation `c'` with
+   `CloseTo 0 ms false 0 (ofOsu c0) (ofQua c')`: the hits, the holds and the normalised tempo timeline of the SOURCE FILE
+   pair off with those of the WRITTEN DOCUMENT — same columns, every head and tail less than 1 ms away, same tempos —
+   with no float slack.
+Hypotheses that remain (named): the tempo points of the source lie on whole milliseconds (`TempoWholeMs`; otherwise two
+tempo points less than 1 ms apart may collapse when written, which the harness treats as `tempo_crowded`); success of the
+converter model and of the writer model; `MetaOk info` (metadata is not part of the abstract chart; its provenance is C08
+`converters_spec_all`).  Modelling glue that is definition, not theorem: `embOsu` (an in-memory `OsuMap` IS its list
+frames) and `quaOfT` (an in-memory `QuaMap` IS its list frames, `keysounds` cells `[]`); both are proved to commute with
+the abstraction (`ofSrcMap_embOsu`, `ofQua_quaOfT`) and are tied to the code by the harness's links 1 and 2 on every case. -/
+theorem osu_to_qua_end_to_end (s : Osu.Skeleton) (hwf : s.WF) (lines : List Osu.Str)
+    (hl : lines.map Osu.strip = s.lines) (c0 : Osu.Chart) (hden : Osu.denote lines = .ok c0)
+    (hk : 1 ≤ Osu.pyTrunc c0.md.circleSize) (hms : TempoWholeMs (ofOsu c0))
+    (k : Int) (out : Convert.Out)
+    (hconv : Convert.convert Convert.tables osuToQua ⟨[], [embOsu c0]⟩ k = .ok out)
+    (info : Qua.Rec) (hm : Qua.MetaOk info) (svs : List Qua.Sv) (d : Qua.Doc) :
+    Osu.read lines = .ok c0 ∧
+    ∃ t, out = ⟨false, [⟨[], [t]⟩]⟩ ∧
+      (Qua.write (quaOfT t info svs) = .ok d →
+        ∃ c', Qua.Spec.denote d = .ok c' ∧ CloseTo 0 .ms false 0 (ofOsu c0) (ofQua c')) := by
+  obtain ⟨_, _, hst, hns, hshape⟩ := osuToQua_entry
+  refine ⟨Osu.read_eq_denote s hwf lines hl c0 hden hk, ?_⟩
+  obtain ⟨m, t, hmaps, hone, hout⟩ := convert_single_inv _ _ _ _ _ hshape hconv
+  have hmeq : m = embOsu c0 := by
+    simp only [List.cons.injEq, and_true] at hmaps
+    exact hmaps.symm
+  subst hmeq
+  have habs : ofTChart t = ofOsu c0 := by
+    rw [convOne_abstract_eq _ _ _ _ _ _ hst hns (srcMapOk_embOsu c0) hone, ofSrcMap_embOsu]
+  refine ⟨t, hout, ?_⟩
+  intro hw
+  have hq : ofQua (quaOfT t info svs) = ofOsu c0 := by rw [ofQua_quaOfT, habs]
+  obtain ⟨hden', _⟩ := Qua.qua_write_denotes _ d hm (ksLists_quaOfT t info svs) hw
+  obtain ⟨c', hc', hobj⟩ := into_qua_objects_partial _ d hm (ksLists_quaOfT t info svs) hw
+  have hceq : c' = Qua.Spec.quantize (quaOfT t info svs) := by
+    rw [hden'] at hc'
+    exact (Except.ok.inj hc').symm
+  refine ⟨c', hc', ?_, ?_, ?_⟩
+  · exact hq ▸ hobj.1
+  · exact hq ▸ hobj.2
+  · -- tempo timeline: on whole milliseconds the written tempo rows are the source's rows
+    have hb : (ofQua c').bpms = (ofOsu c0).bpms := by
+      rw [hceq, ← hq]
+      simp only [ofQua, Qua.Spec.quantize, List.map_map]
+      apply List.map_congr_left
+      intro b hbm
+      have hmem : (b.offset, b.bpm) ∈ (ofOsu c0).bpms := by
+        rw [← hq]
+        exact List.mem_map.mpr ⟨b, hbm, rfl⟩
+      have := hms _ hmem
+      simp only [Function.comp, Qua.Spec.qBpm]
+      rw [this]
+    rw [hb]
+    exact ⟨_, _, List.Perm.refl _, List.Perm.refl _, zipped_refl _ (closeBpm_ms_refl false (ofOsu c0)) _⟩
+
+/-! ## a second pair end to end: Quaver → osu, document to written text -/
+
+def quaToOsu : Convert.Conv := Convert.conv! "QuaToOsu.convert"
+
+theorem quaToOsu_entry : quaToOsu ∈ Generated.converters ∧ quaToOsu.name = "QuaToOsu.convert" ∧
+    Convert.staticOk Convert.tables quaToOsu = true ∧ quaToOsu.shiftParam = none ∧ quaToOsu.shape = .single := by
+  decide +kernel
+
+/-- the hypotheses of C01 `denote_writeText` on the chart that is written (columns inside the key count 1..256, file
+names without separators, non-zero tempos / scroll velocities that the float renderer `R` reads back exactly,
+well-formed metadata, no line break rendered in the header, background name without `"` and `,`) -/
+structure OsuWritable (R : Osu.Render) (c : Osu.Chart) : Prop where
+  hk : 0 < Osu.pyTrunc c.md.circleSize
+  hk' : Osu.pyTrunc c.md.circleSize ≤ 256
+  hhits : ∀ h ∈ c.hits, Osu.ObjOk2 (Osu.pyTrunc c.md.circleSize) (.hit h)
+  hholds : ∀ h ∈ c.holds, Osu.ObjOk2 (Osu.pyTrunc c.md.circleSize) (.hold h)
+  hb : ∀ b ∈ c.bpms, Osu.BpmOk2 R b
+  hs : ∀ b ∈ c.svs, Osu.SvOk2 R b
+  hm : Osu.MetaOk R c.md
+  hnl : ∀ tl ∈ Osu.writeMeta c.md, ∀ t ∈ tl, '\n' ∉ R.tok t
+  hbq : '"' ∉ c.md.backgroundFileName
+  hbc : ',' ∉ c.md.backgroundFileName
+
+/-- **Quaver → osu, end to end** (parsed document to written text; reader C06, converter C08, writer C01 chained):
+let `d` be a Quaver document whose objects declare numeric times, an integer lane and their key sounds, and that the
+by-the-book denotation reads as the chart `c0`.  Then
+1. the reader as written returns exactly `c0` (C06 `qua_read_defaults`);
+2. whenever the converter model's `QuaToOsu.convert` succeeds on the list frames of `c0` (`embQua c0`), it returns one
+   chart `t`, and
+3. whenever the chart held by `t`'s frames (`osuOfT t md svs`: any metadata `md`, any scroll velocities) satisfies the
+   hypotheses of C01's writer theorem (`OsuWritable`), the written text `"\n".join(write())` has a by-the-book
+   denotation `c'` with `CloseTo 0 ms false 0 (ofQua c0) (ofOsu c')`: hits and holds of the SOURCE DOCUMENT pair off with
+   those of the WRITTEN TEXT (same column, head and tail less than 1 ms away), and the tempo timelines are equal (osu
+   timing points keep fractional times: no hypothesis on the tempo points is needed) — no float slack.
+Hypotheses that remain (named): success of the converter model; `OsuWritable` (in particular every column inside the
+written key count — the key count comes from `QuaMapMode.get_keys(qua.mode)`, opaque to the converter table:
+`osu_circle_size_rules`, `qua_mode_roundtrip`); the float renderer `R` is a parameter (Python `repr`).  Modelling glue by
+definition: `embQua`, `osuOfT` (both proved to commute with the abstraction: `ofSrcMap_embQua`, `ofOsu_osuOfT`). -/
+theorem qua_to_osu_end_to_end (d : Qua.Doc) (hdecl : Qua.Spec.objsDeclared d = true) (c0 : Qua.Chart)
+    (hden : Qua.Spec.denote d = .ok c0) (k : Int) (out : Convert.Out)
+    (hconv : Convert.convert Convert.tables quaToOsu ⟨[], [embQua c0]⟩ k = .ok out)
+    (R : Osu.Render) (md : Osu.Meta) (svs : List Osu.Sv) :
+    Qua.read d = .ok c0 ∧
+    ∃ t, out = ⟨false, [⟨[], [t]⟩]⟩ ∧
+      (OsuWritable R (osuOfT t md svs) →
+        ∃ c', Osu.denoteText (Osu.writeText R (osuOfT t md svs)) = .ok c' ∧
+          CloseTo 0 .ms false 0 (ofQua c0) (ofOsu c')) := by
+  obtain ⟨_, _, hst, hns, hshape⟩ := quaToOsu_entry
+  refine ⟨by rw [Qua.qua_read_defaults d hdecl]; exact hden, ?_⟩
+  obtain ⟨m, t, hmaps, hone, hout⟩ := convert_single_inv _ _ _ _ _ hshape hconv
+  have hmeq : m = embQua c0 := by
+    simp only [List.cons.injEq, and_true] at hmaps
+    exact hmaps.symm
+  subst hmeq
+  have habs : ofTChart t = ofQua c0 := by
+    rw [convOne_abstract_eq _ _ _ _ _ _ hst hns (srcMapOk_embQua c0) hone, ofSrcMap_embQua]
+  refine ⟨t, hout, ?_⟩
+  intro hw
+  have hq : ofOsu (osuOfT t md svs) = ofQua c0 := by rw [ofOsu_osuOfT, habs]
+  have hdw := Osu.denote_writeText R (osuOfT t md svs) hw.hk hw.hk' hw.hhits hw.hholds hw.hb hw.hs hw.hm hw.hnl hw.hbq hw.hbc
+  obtain ⟨h1, h2, h3⟩ := quantize_osu_close R.uni (osuOfT t md svs) (ofQua c0)
+  refine ⟨_, hdw, ?_, ?_, ?_⟩
+  · exact hq ▸ h1
+  · exact hq ▸ h2
+  · rw [h3, hq]
+    exact ⟨_, _, List.Perm.refl _, List.Perm.refl _, zipped_refl _ (closeBpm_ms_refl false (ofQua c0)) _⟩
 
 end Reamber.Pipeline
